@@ -38,9 +38,16 @@ def container_ids(x: Any, acc: Optional[set] = None) -> set:
     return acc
 
 
-def run_deserialize(ctx: bridge.Ctx, tp: Any, data: Any, kwargs: dict) -> dict:
-    """One real call; returns the `out` record of the event."""
+def run_deserialize(ctx: bridge.Ctx, tp: Any, data: Any, kwargs: dict, method: bool = False) -> dict:
+    """One real call; returns the `out` record of the event.  With `method`, the precomputed
+    deserialization_method(...) is called instead of deserialize."""
     from apischema import ValidationError, deserialize
+
+    if method:
+        from apischema import deserialization_method
+
+        def deserialize(tp_, data_, **kw):  # noqa: F811
+            return deserialization_method(tp_, **kw)(data_)
 
     before = fingerprint(data)
     in_ids = container_ids(data)
